@@ -426,13 +426,21 @@ var capture *stderrCapture // non-nil while a section of the race binary runs
 var echoRaces bool         // replay: race reports are also passed on to the real stderr, where the driver reads them
 
 // checkPlan is the oracle.  It is a function of the plan and of the schedule the run happened to get.
-func checkPlan(c Plan, s *rt.Section) (*rt.Failure, planInfo) {
+func checkPlan(c Plan, s *rt.Section) (*rt.Failure, planInfo) { return checkPlanWith(c, s, nil) }
+
+// checkPlanWith: pre[g], when non-nil, is the solitary run of VM g made earlier in this process (the pairs
+// section runs the same VM history beside many partners).
+func checkPlanWith(c Plan, s *rt.Section, pre []*aloneRun) (*rt.Failure, planInfo) {
 	var info planInfo
 	alone := make([]aloneRun, len(c.VMs))
 	meterReset(400_000_000)
 	defer meterReset(0)
 	for g, spec := range c.VMs {
-		alone[g] = runAlone(spec)
+		if g < len(pre) && pre[g] != nil {
+			alone[g] = *pre[g]
+		} else {
+			alone[g] = runAlone(spec)
+		}
 		for i, o := range alone[g].out {
 			info.steps++
 			if o.Ceiling {
@@ -622,8 +630,9 @@ func drawCfg(t *rapid.T, seeded bool) vmx.Cfg {
 }
 
 type vmGen struct {
-	env *gen.Env
-	o   gen.Opts
+	env      *gen.Env
+	o        gen.Opts
+	unseeded bool
 }
 
 func drawStep(t *rapid.T, s *rt.Section, vg *vmGen) Step {
@@ -652,7 +661,7 @@ func drawStep(t *rapid.T, s *rt.Section, vg *vmGen) Step {
 			return Step{Src: src, Kind: "hostile"}
 		}
 		return Step{Src: "1", Kind: "fixed"}
-	case k < 18:
+	case k < 17 || (k == 17 && !vg.unseeded):
 		return Step{Src: rapid.SampledFrom(catalogue).Draw(t, "fixed"), Kind: "fixed"}
 	}
 	x := rapid.IntRange(1, 6).Draw(t, "diceX")
@@ -664,17 +673,21 @@ func drawStep(t *rapid.T, s *rt.Section, vg *vmGen) Step {
 func drawPlan(t *rapid.T, s *rt.Section, maxSteps int) Plan {
 	c := Plan{}
 	nvm := rapid.SampledFrom([]int{2, 2, 2, 3, 3, 4, 4, 5, 6, 8}).Draw(t, "vms")
+	forceUnseeded := rapid.IntRange(-1, nvm-1).Draw(t, "forceUnseeded") // most plans have at least one unseeded VM
 	for i := 0; i < nvm; i++ {
-		seeded := rapid.IntRange(0, 9).Draw(t, "seeded") < 6
+		seeded := rapid.IntRange(0, 9).Draw(t, "seeded") < 6 && i != forceUnseeded
 		spec := VMSpec{Cfg: drawCfg(t, seeded), Tag: i + 1, Hooks: rapid.IntRange(0, 2).Draw(t, "hooks") == 0,
 			SeedObs: rapid.Bool().Draw(t, "seedObs"), Spin: rapid.IntRange(0, 40).Draw(t, "spin")}
+		if !seeded && rapid.IntRange(0, 3).Draw(t, "unseededRandomMode") != 0 {
+			spec.Cfg.Mode = "" // an unseeded VM under min/max mode never draws from the process-wide generator
+		}
 		o := gen.DefaultOpts()
 		o.MaxStmts = 4
 		o.MaxDepth = 3
 		o.Dice = true
 		o.SingleKeyDicts = true // nothing compared may depend on Go map order
 		o.CoC, o.WoD, o.Fate, o.DC = spec.Cfg.CoC, spec.Cfg.WoD, spec.Cfg.Fate, spec.Cfg.DC
-		vg := &vmGen{env: &gen.Env{}, o: o}
+		vg := &vmGen{env: &gen.Env{}, o: o, unseeded: !seeded}
 		n := rapid.SampledFrom([]int{5, 5, 6, 8, 10, 12, 16, 24, 40}).Draw(t, "steps")
 		if n > maxSteps {
 			n = maxSteps
@@ -782,6 +795,17 @@ func pairSpec(idx, side, lang, rounds int) VMSpec {
 func enumeratePairs(s *rt.Section, run *rt.Run, rounds int) {
 	k := len(catalogue)
 	n := 0
+	type aloneKey struct{ idx, side, lang int }
+	cache := map[aloneKey]*aloneRun{}
+	solitary := func(idx, side, lang int, spec VMSpec) *aloneRun {
+		key := aloneKey{idx, side, lang}
+		if a, ok := cache[key]; ok {
+			return a
+		}
+		a := runAlone(spec)
+		cache[key] = &a
+		return &a
+	}
 	for i := 0; i < k; i++ {
 		for j := i; j < k; j++ {
 			n++
@@ -798,7 +822,8 @@ func enumeratePairs(s *rt.Section, run *rt.Run, rounds int) {
 				c.VMs = append(c.VMs, u)
 			}
 			s.Crumb(c)
-			f, info := checkPlan(c, s)
+			pre := []*aloneRun{solitary(i, 0, (i+j)%3, c.VMs[0]), solitary(j, 1, (i+j+1)%3, c.VMs[1])}
+			f, info := checkPlanWith(c, s, pre)
 			s.EvalN(int64(info.steps))
 			if info.discard != "" {
 				s.Discard(info.discard)
@@ -815,6 +840,50 @@ func enumeratePairs(s *rt.Section, run *rt.Run, rounds int) {
 			if s.Report(nil, f) {
 				return
 			}
+		}
+	}
+}
+
+// enumerateRotations: plan d lets four VMs run the whole catalogue, each from its own offset.
+func enumerateRotations(s *rt.Section, run *rt.Run, rotations int) {
+	k := len(catalogue)
+	for r := 0; r < rotations; r++ {
+		if r%run.Env.NShards != run.Env.Shard {
+			continue
+		}
+		d := r
+		if rotations < k {
+			d = (1 + r*(k/rotations)) % k
+		}
+		c := Plan{}
+		for g := 0; g < 4; g++ {
+			spec := VMSpec{Cfg: vmx.Cfg{CoC: true, WoD: true, Fate: true, DC: true, OpLimit: 3000, ParseLimit: 5_000_000, Lang: g % 3, SeedHex: pairSeed(g)},
+				Hooks: true, Tag: g + 1, SeedObs: true, Spin: 7 * g}
+			off := (g*d + g*(g-1)/2) % k
+			for i := 0; i < k; i++ {
+				spec.Steps = append(spec.Steps, Step{Src: catalogue[(off+i)%k], Kind: "fixed"})
+			}
+			c.VMs = append(c.VMs, spec)
+		}
+		u := VMSpec{Cfg: vmx.Cfg{OpLimit: 3000, Lang: 1}, Tag: 5}
+		for i := 0; i < 40; i++ {
+			u.Steps = append(u.Steps, Step{Src: "2d6 + 1", Kind: "dice", Lo: 3, Hi: 13})
+		}
+		c.VMs = append(c.VMs, u)
+		s.Crumb(c)
+		f, info := checkPlan(c, s)
+		s.EvalN(int64(info.steps))
+		s.Class("plans")
+		if info.discard != "" {
+			s.Discard(info.discard)
+		}
+		if info.overlap >= 2 {
+			s.NonTrivial(rt.Hash(fmt.Sprintf("d=%d", d)))
+			s.Class(fmt.Sprintf("goroutines-overlapping=%d", info.overlap))
+		}
+		s.Sample(rt.Hash(fmt.Sprintf("d=%d", d)), map[string]any{"d": d, "vms": 5, "programs_per_seeded_vm": k})
+		if s.Report(nil, f) {
+			return
 		}
 	}
 }
@@ -837,25 +906,38 @@ func TestProp(t *testing.T) {
 	defer run.Finish()
 	_ = os.MkdirAll(run.Env.Out, 0o755)
 
-	rounds := 2
+	// catalogue: every catalogue program on each of four unsynchronised goroutines at once
+	rotations := 8
 	if run.Env.Thorough() {
-		rounds = 5
+		rotations = len(catalogue)
 	}
-	withCapture(run, "pairs", func() {
-		run.Enum("pairs", fmt.Sprintf("every unordered pair (self-pairs included) of the %d catalogue programs (every built-in function, prototype method, bound method kept in a variable, dice family, template, function, computed value, st form, per-VM hook, and inputs rejected at parse and at run time), each program run %d times on its own seeded VM with all dice families on, own hooks and a different error language, both VMs at once; every fourth pair beside a third, unseeded VM rolling 2d6+1; each evaluation compared with its solitary twin and, in the race binary, the detector must stay silent; non-trivial = the two goroutines had evaluations in progress at the same time; distinct by pair", len(catalogue), rounds),
+	withCapture(run, "catalogue", func() {
+		run.Enum("catalogue", fmt.Sprintf("%d plans; in each, four seeded VMs (all dice families on, own hooks, error languages 0,1,2,0) run the whole catalogue of %d programs (every built-in function, prototype method, bound method kept in a variable, dice family, template, function, computed value, st form, per-VM hook, inputs rejected at parse and at run time) as one history each, started at four different offsets (0, d, 2d+1, 3d+3 for the plan's d), beside a fifth, unseeded VM that rolls 2d6+1 forty times; no synchronisation between the goroutines, so the happens-before detector judges every pair of catalogue programs in every plan; each evaluation compared with its solitary twin; non-trivial = at least two goroutines had evaluations in progress at the same time; distinct by d", rotations, len(catalogue)),
 			func(s *rt.Section) {
-				s.Exhaustive = true
-				s.Bounds = fmt.Sprintf("%d catalogue programs, all %d unordered pairs, %d rounds each, fixed seeds", len(catalogue), len(catalogue)*(len(catalogue)+1)/2, rounds)
-				enumeratePairs(s, run, rounds)
+				s.Bounds = fmt.Sprintf("%d catalogue programs x 4 VMs, %d offset sets", len(catalogue), rotations)
+				enumerateRotations(s, run, rotations)
 			})
 	})
 
+	// pairs (thorough): all unordered pairs, time-aligned
+	if run.Env.Thorough() {
+		rounds := 3
+		withCapture(run, "pairs", func() {
+			run.Enum("pairs", fmt.Sprintf("every unordered pair (self-pairs included) of the %d catalogue programs, each program run %d times on its own seeded VM with all dice families on, own hooks and a different error language, both VMs at once; every fourth pair beside a third, unseeded VM rolling 2d6+1; each evaluation compared with its solitary twin and, in the race binary, the detector must stay silent; non-trivial = the two goroutines had evaluations in progress at the same time; distinct by pair", len(catalogue), rounds),
+				func(s *rt.Section) {
+					s.Exhaustive = true
+					s.Bounds = fmt.Sprintf("%d catalogue programs, all %d unordered pairs, %d rounds each, fixed seeds", len(catalogue), len(catalogue)*(len(catalogue)+1)/2, rounds)
+					enumeratePairs(s, run, rounds)
+				})
+		})
+	}
+
 	withCapture(run, "plans", func() {
-		run.Check("plans", 240, 5000, planRule+"; built with the race detector and without the verif hooks (whose shared atomic meter would order the goroutines and hide races): zero race reports, each report attributed to the plan that was running",
+		run.Check("plans", 200, 5000, planRule+"; built with the race detector and without the verif hooks (whose shared atomic meter would order the goroutines and hide races): zero race reports, each report attributed to the plan that was running",
 			func(t *rapid.T, s *rt.Section) { planProp(t, s, run) })
 	})
 
-	run.Check("sched", 1500, 40000, planRule+"; plain binary with the verif hooks: every n-th VM instruction or roll (n drawn from 1, 2, 7, 50, 400, or never) yields the processor, unseeded VMs roll at the same time",
+	run.Check("sched", 600, 40000, planRule+"; plain binary with the verif hooks: every n-th VM instruction or roll (n drawn from 1, 2, 7, 50, 400, or never) yields the processor, unseeded VMs roll at the same time",
 		func(t *rapid.T, s *rt.Section) { planProp(t, s, run) })
 }
 
@@ -886,5 +968,5 @@ func TestReplay(t *testing.T) {
 		}
 		return nil
 	}
-	rt.Replay(t, "C11", map[string]rt.ReplayFunc{"plans": plan, "sched": plan, "pairs": plan})
+	rt.Replay(t, "C11", map[string]rt.ReplayFunc{"plans": plan, "sched": plan, "pairs": plan, "catalogue": plan})
 }
